@@ -104,6 +104,28 @@ def attr_name(tid, name):
 # tokens -> abstract value (same as proto.decode_comp; duplicated to keep the driver standalone)
 # ------------------------------------------------------------------------------------------------------------------
 
+ABSURD_SLACK = 4096   # token-less elements: counts up to cap + this are handed to the generated code, larger are 'rejected'
+_MIN_TOKENS = {}
+
+
+def min_tokens(t):
+    """Least number of tokens a value of TYPE t occupies (0 for void and for composites without value-carrying fields)."""
+    k = t['k']
+    if k == 'void':
+        return 0
+    if k in ('bool', 'uint', 'int', 'float', 'varr'):
+        return 1
+    if k == 'farr':
+        return t['n'] * min_tokens(t['elem'])
+    if k == 'ref':
+        tid = t['id']
+        if tid not in _MIN_TOKENS:
+            c = TYPES[tid]
+            _MIN_TOKENS[tid] = 1 if c['kind'] == 'union' else sum(min_tokens(f['type']) for f in c['fields'])
+        return _MIN_TOKENS[tid]
+    raise BadRequest('unknown type kind %r' % k)
+
+
 def parse_value(t, toks, pos):
     k = t['k']
     if k == 'void':
@@ -118,8 +140,15 @@ def parse_value(t, toks, pos):
         else:
             n = int(toks[pos])
             pos += 1
-            if n < 0 or n > len(toks):
-                raise BadRequest('array count %d exceeds the token count' % n)
+            if n < 0:
+                raise BadRequest('negative array count %d' % n)
+            if min_tokens(t['elem']) > 0:
+                # every element needs a token: a count beyond the tokens that are left is a malformed request
+                if n > len(toks) - pos:
+                    raise BadRequest('array count %d exceeds the %d remaining tokens' % (n, len(toks) - pos))
+            elif n > t['cap'] + ABSURD_SLACK:
+                # elements may be token-less (composite without fields): any count is well-formed; do not loop forever
+                raise Rejected('StorageRange', 'array count %d is absurd for capacity %d' % (n, t['cap']))
         out = []
         for _ in range(n):
             e, pos = parse_value(t['elem'], toks, pos)
@@ -335,8 +364,8 @@ def op_ser(args):
     c = TYPES.get(tid)
     if c is None:
         raise BadRequest('unknown type id %s' % tid)
-    v = parse_all(parse_comp, c, args[3:])
     try:
+        v = parse_all(parse_comp, c, args[3:])
         obj = build_obj(tid, v)
     except Rejected as r:
         return 'err rejected %s %s' % (r.exc_type, one_line(r.text))
@@ -445,8 +474,8 @@ def op_set(args):
         except ValueError as ex:
             raise BadRequest('bad JSON: %s' % ex) from None
     else:
-        v = parse_all(parse_value, f['type'], rest)
         try:
+            v = parse_all(parse_value, f['type'], rest)
             with np.errstate(all='ignore'):
                 val = make_value(f['type'], v)
         except Rejected as r:
@@ -476,8 +505,8 @@ def op_builtin(args):
     c = TYPES.get(tid)
     if c is None:
         raise BadRequest('unknown type id %s' % tid)
-    v = parse_all(parse_comp, c, args[1:])
     try:
+        v = parse_all(parse_comp, c, args[1:])
         obj = build_obj(tid, v)
     except Rejected as r:
         return 'err rejected %s %s' % (r.exc_type, one_line(r.text))
